@@ -104,6 +104,12 @@ theorem emit_catOf : ∀ (as : List Atom) (base : Nat), emit (catOf as) base = a
 theorem emitRep_one (body : Nat → List Inst) (bl base : Nat) : emitRep body bl 1 1 base = body base := by
   simp [emitRep]
 
+/-- a literal pattern compiles to a handful of instructions: far below the size limit -/
+theorem count_literal_small (lbeg wbeg wend lend : Bool) (lit : Bytes) :
+    ¬ (count (RNode.grp (RNode.grp (catOf (atomsOf lbeg wbeg wend lend lit)) 0 1 1) 0 1 1) + 3 > (Gen.NCODE : Int)) := by
+  cases lbeg <;> cases wbeg <;> cases wend <;> cases lend <;>
+    simp [atomsOf, catOf, count, countRep, Gen.NCODE]
+
 /-- `regcomp` of `((re))` for a literal pattern -/
 theorem regcomp_literal {re : Bytes} {lbeg wbeg wend lend : Bool} {lit : Bytes}
     (hnul : ∀ c ∈ re, c ≠ 0)
@@ -113,6 +119,7 @@ theorem regcomp_literal {re : Bytes} {lbeg wbeg wend lend : Bool} {lit : Bytes}
   refine ⟨count (RNode.grp (RNode.grp (catOf (atomsOf lbeg wbeg wend lend lit)) 0 1 1) 0 1 1) + 3, ?_⟩
   unfold regcomp
   rw [parse_literal hnul h hne hlo]
+  simp only [if_neg (count_literal_small lbeg wbeg wend lend lit)]
   simp only [grpnum, grpnum_catOf, emit, emitRep_one, emit_catOf, litCode]
   simp
 
